@@ -113,6 +113,16 @@ def _limits():
         except Exception:
             pass
 
+def _memlimit():
+    # a runaway request (e.g. a structure that doubles in a nested loop) must not take the machine down
+    try:
+        resource.setrlimit(resource.RLIMIT_AS, (16 << 30, 16 << 30))
+    except Exception:
+        pass
+
+def _limits_model():
+    _limits(); _memlimit()
+
 def run_lines(binary, lines, env=None, timeout=900, model=False):
     """Feed request lines to a protocol executable; returns the list of answer lines (may be
     shorter than the input if the process died) and the exit status."""
@@ -124,7 +134,7 @@ def run_lines(binary, lines, env=None, timeout=900, model=False):
     if model:
         try:
             p = subprocess.run([binary], input=data, text=True, stdout=subprocess.PIPE,
-                               stderr=subprocess.DEVNULL, env=e, timeout=timeout, preexec_fn=_limits)
+                               stderr=subprocess.DEVNULL, env=e, timeout=timeout, preexec_fn=_limits_model)
             out = p.stdout.split("\n")
             if out and out[-1] == "": out.pop()
             return out, p.returncode
@@ -146,7 +156,7 @@ def run_lines(binary, lines, env=None, timeout=900, model=False):
         f.write(data)
     stall = float(e.get("VERIF_STALL", STALL_DEFAULT))
     with open(inp, "rb") as fin:
-        p = subprocess.Popen([binary], stdin=fin, stdout=subprocess.DEVNULL, stderr=subprocess.DEVNULL, env=e)
+        p = subprocess.Popen([binary], stdin=fin, stdout=subprocess.DEVNULL, stderr=subprocess.DEVNULL, env=e, preexec_fn=_memlimit)
         t0 = time.time(); last_size = -1; last_change = t0
         while True:
             try:
